@@ -39,6 +39,14 @@ SimProposal ==
           /\ (UseEnvSafe => EnvSafe(Shown(Me) \cup {p.blk}))
           /\ Publish(Me, HandleProposal(ns[Me], p, TRUE), PCause(p))
           /\ trace' = Append(trace, [a |-> "Proposal", blk |-> p.blk, tc |-> p.tc])
+\* a proposal whose QC is a look-alike of QC::genesis() (round 0, no votes) naming a block the node has stored: it must be rejected, so the
+\* model does not move.  (Variant 9 keeps the abstract name apart from honest blocks; the harness builds it with an empty payload.)
+SimForged ==
+  /\ Win(0, 2) # {} /\ ns[Me].stored # {}
+  /\ \E r \in {Pick(Win(0, 2))}, k \in {Pick(ns[Me].stored)} :
+       /\ Leader(r) # Me /\ Rnd(k) < r
+       /\ trace' = Append(trace, [a |-> "Proposal", blk |-> <<r, Leader(r), 9, k>>, tc |-> NoTC, forged |-> TRUE])
+       /\ UNCHANGED vars
 SimVote ==
   /\ UseVotes /\ VoteCands # {}
   /\ \E v \in {Pick(VoteCands)} :
@@ -60,7 +68,7 @@ SimTimer ==
   /\ trace' = Append(trace, [a |-> "Timer"])
 
 \* proposals are the most informative stimulus: give them more weight
-External == SimProposal \/ SimProposal \/ SimVote \/ SimTimeout \/ SimTC \/ SimTimer
+External == SimProposal \/ SimProposal \/ SimVote \/ SimTimeout \/ SimTC \/ SimTimer \/ SimForged
 SNext == IF InternalEnabled THEN Internal /\ UNCHANGED trace ELSE External
 SSpec == SInit /\ [][SNext]_svars
 
